@@ -95,6 +95,7 @@ def validate_parallel(ctx, traces, timeout=3000):
 
 
 def run(ctx):
+    ctx.level = "exploration"   # the conformance side samples the input space (see manifest level_note)
     ctx.build(["vh-misc"])
     if ctx.replay:
         return replay(ctx)
